@@ -118,8 +118,11 @@ pub fn run_c07(cfg: &Cfg) -> Report {
         rep.exhaustive("C07 hook: all 2^28 exclusive lengths and all 2^28-4 self-inclusive content lengths");
     }
     // (b) call-site ties
-    let mut sizes: Vec<usize> = (0..=200).collect();
+    // 0..=300 and 65 500..=65 580 also walk the *inner* BufferSize / element-count integer of Buffer,
+    // BufferData, ResourceTemplate and VarPackage across its own 255/256 and 65 535/65 536 width steps
+    let mut sizes: Vec<usize> = (0..=300).collect();
     sizes.extend(4000..=4200);
+    sizes.extend(65_500..=65_580);
     if thorough {
         sizes.extend((1 << 20) - 8..=(1 << 20) + 2);
     }
